@@ -336,6 +336,59 @@ func prepareQuery(pc []Term, goal Term) []string {
 		}
 	}
 	cands = append(cands, &sx{atom: "0"}, &sx{atom: "1"})
+	// index terms of array reads that the goal depends on (directly or through the
+	// definitions of the symbols it mentions) are instantiation candidates as well
+	if len(cands) <= 8 {
+		goalToks := map[string]bool{}
+		for _, tk := range strings.FieldsFunc(goal.S, func(r rune) bool { return r == '(' || r == ')' || r == ' ' }) {
+			goalToks[tk] = true
+		}
+		seenC := map[string]bool{}
+		for _, c := range cands {
+			seenC[c.String()] = true
+		}
+		addIdx := func(t *sx) {
+			var walk func(n *sx)
+			walk = func(n *sx) {
+				if n.kids == nil {
+					return
+				}
+				if n.head() == "select" && len(n.kids) == 3 {
+					idx := n.kids[2]
+					parts := []*sx{idx}
+					if idx.kids != nil && idx.head() == "+" {
+						parts = append(parts, idx.kids[1:]...)
+					}
+					for _, p := range parts {
+						ps := p.String()
+						if len(ps) < 60 && !seenC[ps] && !strings.Contains(ps, "?") && len(cands) < 14 {
+							if _, isNum := litVal(Term{ps, SInt}); !isNum {
+								seenC[ps] = true
+								cands = append(cands, p)
+							}
+						}
+					}
+				}
+				for _, k := range n.kids {
+					walk(k)
+				}
+			}
+			walk(t)
+		}
+		if strings.Contains(goal.S, "(select ") && !strings.Contains(goal.S, "(forall ") {
+			addIdx(parseSx(goal.S))
+		}
+		for _, p := range plain {
+			if !strings.HasPrefix(p, "(= ") || !strings.Contains(p, "(select ") {
+				continue
+			}
+			end := strings.IndexByte(p[3:], ' ')
+			if end < 0 || !goalToks[p[3:3+end]] {
+				continue
+			}
+			addIdx(parseSx(p))
+		}
+	}
 	out := plain
 	for _, f := range facts {
 		s := f.String()
